@@ -48,7 +48,10 @@ Fixpoint trim_left (l : str) : str :=
   | c :: t => if is_space c then trim_left t else l
   end.
 
-Definition trim_right (l : str) : str := rev (trim_left (rev l)).
+(* List.rev of the standard library is quadratic; rev_append is the same function (rev_alt) *)
+Definition frev (l : str) : str := rev_append l [].
+
+Definition trim_right (l : str) : str := frev (trim_left (frev l)).
 
 (* bytes.TrimSpace: leading white space first, then trailing *)
 Definition trim (l : str) : str := trim_right (trim_left l).
@@ -86,7 +89,7 @@ Fixpoint phys_lines (t : str) : list str :=
 
 Definition starts_with (c : ascii) (l : str) : bool :=
   match l with x :: _ => Ascii.eqb x c | [] => false end.
-Definition ends_with (c : ascii) (l : str) : bool := starts_with c (rev l).
+Definition ends_with (c : ascii) (l : str) : bool := starts_with c (frev l).
 
 Definition is_cmt (c : ascii) : bool := Ascii.eqb c "#" || Ascii.eqb c ";".
 
